@@ -10,6 +10,7 @@ import PyamgV.Proofs.C19Trunc
 import PyamgV.Proofs.ExtC19Trunc
 import PyamgV.Proofs.ExtC19Inv
 import PyamgV.Proofs.ExtC19bBlock
+import PyamgV.Proofs.ExtW6InvHomog
 import PyamgV.Proofs.ExtC19bInst
 import PyamgV.Proofs.ExtC19bCoo
 import PyamgV.Proofs.ExtC19SVec
@@ -441,5 +442,11 @@ example {n : Nat} (A : Vector (Vector (PyamgV.C19T.Cx ℝ) n) n) (hA : PyamgV.C0
   let ⟨_, _, _, r, h1, h2, _⟩ := PyamgV.C19T.cvec_asr_estimate_le A Real.sqrt (1 / 10 ^ 10)
     (fun _ h => Real.mul_self_sqrt h) Real.sqrt_nonneg (by positivity) hA ρ hray tol tieTol maxiter restart v0 hv0 oracle cs h
   ⟨r, h1, h2⟩
+
+/-- wave 6 (DESIGN 11.13): the executable inverse has no absolute cutoff -- for every regular `G` and
+`s ≠ 0` the inverse of `s • G` exists and is `s⁻¹ •` the inverse of `G` (units of the matrix) -/
+restate inverse_homogeneous := PyamgV.C19.Mat.inv_homogeneous
+/-- the same as a statement about the direct solve: the solve of `s • G` with `s • b` is the solve of `G` with `b` -/
+restate inverse_homogeneous_solve := PyamgV.C19.Mat.inv_homogeneous_solve
 
 end PyamgV.Props.C19
